@@ -1,12 +1,3 @@
-//@unit F2 : FSETable::build_decoding_table / build_from_probabilities / build_decoder: for every distribution whose cells sum to 2^accuracy_log (accuracy logs 5..=9) the spread walk terminates and is a permutation of the cells below the less-than-one symbols, every symbol gets exactly `probability` cells, no index / overflow panic, the internal assert holds, the table satisfies table_wf (what all FSE stepping relies on) AND is the table RFC 8878 4.1.1 defines: symbol of every cell by the spread walk, less-than-one symbols from the top, baseline / bit count of every state by its rank (table_is_rfc)
-//@props C12,C03,C01
-//@tier quick
-//@profile rel
-//@assume read_probabilities is abstract here with the contract unit F3 proves on its verbatim body (shared text: include/contract_fse_read_probabilities.rs)
-//@assume std <[i32]>::to_vec returns a Vec with the slice's content (assume_specification)
-//@assume calc_baseline_and_numbits is abstract here; its contract (for 1 <= states <= table size, state number < states: bits <= accuracy log, baseline + 2^bits <= table size) is Kani obligation F1.f1_calc_baseline (complete for accuracy logs 5..=9)
-//@assume accuracy logs 5..=9 only (all the format allows: read_probabilities yields >= 5, the callers pass max_log <= 9); the modular inverses of the spread step for the five table sizes are checked by computation inside the unit
-//@assume R-for: the `for idx in 0..len { .. continue; .. }` spread loop is rewritten to the equivalent `while` with explicit increment (Verus does not support `continue` in `for`); the anonymous `for _ in 0..prob` gets a named index
 use vstd::prelude::*;
 use vstd::arithmetic::div_mod::*;
 use vstd::arithmetic::mul::*;
@@ -80,11 +71,10 @@ pub proof fn lemma_w_next(j: int, t: int)
 }
 
 /// F1 (Kani): exec step function
-//@extract file=ruzstd/src/fse/fse_decoder.rs fn=next_position
-//@spec
+pub fn next_position(mut p: usize, table_size: usize) -> (r: usize)
     requires valid_t(table_size as int), p < table_size,
     ensures r == (p + step(table_size as int)) % (table_size as int), r < table_size,
-//@ghost at=start
+{
     proof {
         assert(forall|x: usize| #[trigger] (x & 31) == x % 32) by (bit_vector);
         assert(forall|x: usize| #[trigger] (x & 63) == x % 64) by (bit_vector);
@@ -94,7 +84,10 @@ pub proof fn lemma_w_next(j: int, t: int)
         assert((32usize >> 1) == 16 && (32usize >> 3) == 4 && (64usize >> 1) == 32 && (64usize >> 3) == 8 && (128usize >> 1) == 64 && (128usize >> 3) == 16
             && (256usize >> 1) == 128 && (256usize >> 3) == 32 && (512usize >> 1) == 256 && (512usize >> 3) == 64) by (bit_vector);
     }
-//@end
+    p += (table_size >> 1) + (table_size >> 3) + 3;
+    p &= table_size - 1;
+    p
+}
 
 pub enum GetBitsError { TooManyBits { num_requested_bits: usize, limit: u8 }, NotEnoughRemainingBits { requested: usize, remaining: usize } }
 pub enum FSETableError {
@@ -105,11 +98,9 @@ pub enum FSETableError {
     TooManySymbols { got: usize },
 }
 
-//@struct-check file=ruzstd/src/fse/fse_decoder.rs name=Entry fields="pub base_line: u32 | pub num_bits: u8 | pub symbol: u8"
 #[derive(Copy, Clone)]
 pub struct Entry { pub base_line: u32, pub num_bits: u8, pub symbol: u8 }
 
-//@struct-check file=ruzstd/src/fse/fse_decoder.rs name=FSETable fields="max_symbol: u8 | pub decode: Vec<Entry> | pub accuracy_log: u8 | pub symbol_probabilities: Vec<i32> | symbol_counter: Vec<u32>"
 pub struct FSETable {
     pub max_symbol: u8,
     pub decode: Vec<Entry>,
@@ -118,7 +109,6 @@ pub struct FSETable {
     pub symbol_counter: Vec<u32>,
 }
 
-//@const-check file=ruzstd/src/fse/fse_decoder.rs text="const ACC_LOG_OFFSET: u8 = 5;"
 pub const ACC_LOG_OFFSET: u8 = 5;
 
 /// std: <[i32]>::to_vec copies the slice (assumed specification of a std function)
@@ -265,17 +255,6 @@ pub proof fn lemma_cnt_sym_same(d1: Seq<Entry>, d2: Seq<Entry>, s: int, upto: in
     decreases upto,
 { if upto > 0 { lemma_cnt_sym_same(d1, d2, s, upto - 1); } }
 
-/// RFC 8878 4.1.1, spreading: walk the positions 0, step, 2*step, .. (mod table size), skip the cells reserved for less-than-one
-/// symbols; the r-th cell visited that way (r = rank_of) belongs to the symbol whose cumulative probability interval contains r
-pub open spec fn visited_before(c: int, t: int, neg: int) -> Seq<bool> { Seq::new(t as nat, |c2: int| c2 < neg && step_index(c2, t) < step_index(c, t)) }
-pub open spec fn rank_of(c: int, t: int, neg: int) -> int { numw(visited_before(c, t, neg), t) }
-pub open spec fn spread_symbol_ok(probs: Seq<i32>, t: int, neg: int, c: int, sym: int) -> bool {
-    0 <= sym < probs.len() && sum_pos(probs.take(sym)) <= rank_of(c, t, neg) < sum_pos(probs.take(sym + 1))
-}
-/// RFC 8878 4.1.1, state arithmetic (baseline, number of bits) of the k-th state of a symbol with probability p in a table of ts cells:
-/// abstract here; Kani obligation F1.f1_calc_baseline proves the real calc_baseline_and_numbits equal to the RFC formula (contracts/spec/30_rfc_fse_tables.rs)
-pub uninterp spec fn rfc_state(ts: u32, p: u32, k: u32) -> (u32, u8);
-
 /// the state of the spread walk after `j` steps, while symbol `idx` has received `k` of its cells
 pub open spec fn spread_state(d: Seq<Entry>, written: Seq<bool>, probs: Seq<i32>, t: int, neg: int, j: int, idx: int, k: int) -> bool {
     &&& d.len() == t && written.len() == t
@@ -284,13 +263,10 @@ pub open spec fn spread_state(d: Seq<Entry>, written: Seq<bool>, probs: Seq<i32>
     &&& numw(written, t) == sum_pos(probs.take(idx)) + k
     &&& forall|c: int| 0 <= c < t && #[trigger] written[c] ==> d[c].symbol <= idx && d[c].symbol < probs.len() && probs[d[c].symbol as int] > 0
     &&& forall|s: int| 0 <= s < probs.len() ==> #[trigger] cntw(d, written, s, t) == (if s < idx { posp(probs[s]) } else if s == idx { k } else { 0 })
-    &&& forall|c: int| 0 <= c < t && #[trigger] written[c] ==> spread_symbol_ok(probs, t, neg, c, d[c].symbol as int)
 }
 /// the cells of the less-than-one symbols (filled from the top by the first loop) are final
-pub open spec fn top_ok(d: Seq<Entry>, probs: Seq<i32>, neg: int, t: int, al: u8, max_symbol: u8) -> bool {
+pub open spec fn top_ok(d: Seq<Entry>, neg: int, t: int, al: u8, max_symbol: u8) -> bool {
     forall|c: int| neg <= c < t ==> (#[trigger] d[c]).num_bits == al && d[c].base_line == 0 && d[c].symbol <= max_symbol
-        // RFC: the i-th less-than-one symbol (in symbol order) owns cell t - 1 - i
-        && d[c].symbol < probs.len() && probs[d[c].symbol as int] == -1 && c == t - 1 - num_neg(probs.take(d[c].symbol as int))
 }
 /// the walk bijection facts, stated once
 pub open spec fn walk_facts(t: int) -> bool {
@@ -314,7 +290,6 @@ pub fn calc_baseline_and_numbits(num_states_total: u32, num_states_symbol: u32, 
     ensures tsize(5) == num_states_total ==> r.1 <= 5, tsize(6) == num_states_total ==> r.1 <= 6, tsize(7) == num_states_total ==> r.1 <= 7,
         tsize(8) == num_states_total ==> r.1 <= 8, r.1 <= 9,
         r.0 + vstd::arithmetic::power2::pow2(r.1 as nat) <= num_states_total,
-        r == rfc_state(num_states_total, num_states_symbol, state_number),
 { unimplemented!() }
 
 impl FSETable {
@@ -331,36 +306,41 @@ impl FSETable {
     /// unit F3 proves this contract on the verbatim body
     #[verifier::external_body]
     pub fn read_probabilities(&mut self, source: &[u8], max_log: u8) -> (r: Result<usize, FSETableError>)
-//@include contract_fse_read_probabilities.rs
+        // contract of FSETable::read_probabilities: PROVED in unit F3 (on the verbatim body), ASSUMED in unit F2
+        requires source@.len() <= 0x1_0000_0000, max_log <= 30,
+        ensures
+            final(self).max_symbol == old(self).max_symbol, final(self).decode == old(self).decode,
+            r matches Ok(n) ==> n <= source@.len()
+                && ACC_LOG_OFFSET <= final(self).accuracy_log <= max_log
+                && sum_cells(final(self).symbol_probabilities@) == (1u32 << final(self).accuracy_log)
+                && final(self).symbol_probabilities@.len() <= final(self).max_symbol + 1
+                && forall|i: int| 0 <= i < final(self).symbol_probabilities@.len() ==> #[trigger] final(self).symbol_probabilities@[i] >= -1,
+
     { unimplemented!() }
 
-    /// the decoding table is the one RFC 8878 4.1.1 defines for (accuracy_log, symbol_probabilities): symbol, bit count and baseline of every state
-    pub open spec fn table_is_rfc(&self) -> bool {
-        let t = tsize(self.accuracy_log as int);
-        let probs = self.symbol_probabilities@;
-        let d = self.decode@;
-        let neg = t - num_neg(probs);
-        &&& d.len() == t
-        // cells of the less-than-one symbols, from the top
-        &&& forall|c: int| neg <= c < t ==> (#[trigger] d[c]).num_bits == self.accuracy_log && d[c].base_line == 0
-                && d[c].symbol < probs.len() && probs[d[c].symbol as int] == -1 && c == t - 1 - num_neg(probs.take(d[c].symbol as int))
-        // all other cells: symbol by the spread walk, state arithmetic by rank among the symbol's cells in cell order
-        &&& forall|c: int| 0 <= c < neg ==> spread_symbol_ok(probs, t, neg, c, (#[trigger] d[c]).symbol as int)
-                && probs[d[c].symbol as int] > 0
-                && (d[c].base_line, d[c].num_bits) == rfc_state(t as u32, probs[d[c].symbol as int] as u32, cnt_sym(d, d[c].symbol as int, c) as u32)
-    }
+    pub fn build_decoder(&mut self, source: &[u8], max_log: u8) -> (r: Result<usize, FSETableError>)
+        // contract of FSETable::build_decoder: PROVED in unit F2 (on the verbatim body), ASSUMED wherever the table type is abstract (Q2, HU2V)
+        requires max_log <= 9, source@.len() <= 0x1_0000_0000,
+        ensures
+            final(self).max_symbol == old(self).max_symbol,
+            r matches Ok(n) ==> n <= source@.len() && final(self).table_wf() && final(self).accuracy_log != 0,
+{
+        self.accuracy_log = 0;
 
-//@extract file=ruzstd/src/fse/fse_decoder.rs impl="^impl FSETable" fn=build_decoder
-//@spec
-//@include contract_fse_build_decoder.rs
-//@ghost before="self.build_decoding_table()?;"
+        let bytes_read = self.read_probabilities(source, max_log)?;
         proof {
             assert((1u32 << 5u8) == 32 && (1u32 << 6u8) == 64 && (1u32 << 7u8) == 128 && (1u32 << 8u8) == 256 && (1u32 << 9u8) == 512) by (bit_vector);
         }
-//@end
+        self.build_decoding_table()?;
 
-//@extract file=ruzstd/src/fse/fse_decoder.rs impl="^impl FSETable" fn=build_from_probabilities
-//@spec
+        Ok(bytes_read)
+    }
+
+    pub fn build_from_probabilities(
+        &mut self,
+        acc_log: u8,
+        probs: &[i32],
+    ) -> (r: Result<(), FSETableError>)
         requires
             // the only callers pass the three predefined distributions (Kani F2c checks those tables cell by cell)
             acc_log == 0 || (5 <= acc_log <= 9 && sum_cells(probs@) == tsize(acc_log as int) && forall|i: int| 0 <= i < probs@.len() ==> #[trigger] probs@[i] >= -1),
@@ -368,12 +348,17 @@ impl FSETable {
             final(self).max_symbol == old(self).max_symbol,
             r is Ok ==> final(self).table_wf() && final(self).accuracy_log == acc_log && acc_log != 0 && final(self).symbol_probabilities@ == probs@,
             acc_log == 0 ==> r is Err,
-//@ghost after="self.symbol_probabilities = probs.to_vec();"
+{
+        if acc_log == 0 {
+            return Err(FSETableError::AccLogIsZero);
+        }
+        self.symbol_probabilities = probs.to_vec();
         proof { assert(self.symbol_probabilities@ =~= probs@); }
-//@end
+        self.accuracy_log = acc_log;
+        self.build_decoding_table()
+    }
 
-//@extract file=ruzstd/src/fse/fse_decoder.rs impl="^impl FSETable" fn=build_decoding_table rewrite="for _ in 0..prob=>for _ in it: 0..prob"
-//@spec
+    pub fn build_decoding_table(&mut self) -> (r: Result<(), FSETableError>)
         requires
             5 <= old(self).accuracy_log <= 9,
             sum_cells(old(self).symbol_probabilities@) == tsize(old(self).accuracy_log as int),
@@ -381,9 +366,9 @@ impl FSETable {
         ensures
             final(self).max_symbol == old(self).max_symbol, final(self).accuracy_log == old(self).accuracy_log,
             final(self).symbol_probabilities == old(self).symbol_probabilities,
-            r is Ok ==> final(self).table_wf() && final(self).table_is_rfc(),
+            r is Ok ==> final(self).table_wf(),
             (r is Err) <==> old(self).symbol_probabilities@.len() > old(self).max_symbol + 1,
-//@ghost at=start
+{
         let ghost probs = self.symbol_probabilities@;
         let ghost n = probs.len() as int;
         let ghost al = self.accuracy_log;
@@ -396,34 +381,71 @@ impl FSETable {
             assert((1u64 << 5u8) == 32 && (1u64 << 6u8) == 64 && (1u64 << 7u8) == 128 && (1u64 << 8u8) == 256 && (1u64 << 9u8) == 512) by (bit_vector);
             vstd::arithmetic::power2::lemma2_to64();
         }
-//@loop 1
+        if self.symbol_probabilities.len() > self.max_symbol as usize + 1 {
+            return Err(FSETableError::TooManySymbols {
+                got: self.symbol_probabilities.len(),
+            });
+        }
+
+        self.decode.clear();
+
+        let table_size = 1 << self.accuracy_log;
+        if self.decode.len() < table_size {
+            self.decode.reserve(table_size - self.decode.len());
+        }
+        //fill with dummy entries
+        self.decode.resize(
+            table_size,
+            Entry {
+                base_line: 0,
+                num_bits: 0,
+                symbol: 0,
+            },
+        );
+
+        let mut negative_idx = table_size; //will point to the highest index with is already occupied by a negative-probability-symbol
+
+        //first scan for all -1 probabilities and place them at the top of the table
+        for symbol in 0..self.symbol_probabilities.len() 
             invariant
                 valid_t(t), t == tsize(al as int), 5 <= al <= 9, table_size == t, self.decode@.len() == t, self.accuracy_log == al, self.max_symbol == msym,
                 self.symbol_probabilities@ == probs, n == probs.len(), n <= msym + 1,
                 num_neg(probs) <= t,
                 negative_idx == t - num_neg(probs.take(symbol as int)),
-                top_ok(self.decode@, probs, negative_idx as int, t, al, msym),
-//@ghost inloop=1
+                top_ok(self.decode@, negative_idx as int, t, al, msym),
+{
             proof {
                 lemma_take_step(probs, symbol as int);
                 lemma_take_mono(probs, symbol as int);
                 lemma_take_mono(probs, symbol as int + 1);
             }
-//@ghost before="let mut position = 0;"
+
+            if self.symbol_probabilities[symbol] == -1 {
+                negative_idx -= 1;
+                let entry = &mut self.decode[negative_idx];
+                entry.symbol = symbol as u8;
+                entry.base_line = 0;
+                entry.num_bits = self.accuracy_log;
+            }
+        }
+
+        //then place in a semi-random order all of the other symbols
         proof {
             assert(probs.take(n) =~= probs);
             assert(negative_idx == sum_pos(probs));
         }
         let ghost mut written: Seq<bool> = Seq::new(t as nat, |c: int| false);
         let ghost mut j: int = 0;
-//@ghost before="let verif_end_idx: usize"
+        let mut position = 0;
         proof {
             lemma_numw_none(written, t);
             assert(probs.take(0) =~= Seq::<i32>::empty());
             assert forall|s: int| 0 <= s < probs.len() implies #[trigger] cntw(self.decode@, written, s, t) == 0 by { lemma_cntw_none(self.decode@, written, s, t); }
             assert(spread_state(self.decode@, written, probs, t, negative_idx as int, j, 0, 0));
         }
-//@loop 2
+        let verif_end_idx: usize = self.symbol_probabilities.len();
+        let mut idx: usize = 0;
+        while idx < verif_end_idx 
             invariant
                 valid_t(t), t == tsize(al as int), 5 <= al <= 9, table_size == t, self.decode@.len() == t, self.accuracy_log == al, self.max_symbol == msym,
                 self.symbol_probabilities@ == probs, n == probs.len(), n <= msym + 1, verif_end_idx == n, idx <= n,
@@ -432,15 +454,23 @@ impl FSETable {
                 negative_idx == sum_pos(probs), negative_idx <= t,
                 position == w(j, t), position < t, negative_idx > 0 ==> position < negative_idx,
                 spread_state(self.decode@, written, probs, t, negative_idx as int, j, idx as int, 0),
-                top_ok(self.decode@, probs, negative_idx as int, t, al, msym),
+                top_ok(self.decode@, negative_idx as int, t, al, msym),
             decreases n - idx,
-//@ghost inloop=2
+{
             proof {
                 lemma_take_step(probs, idx as int);
                 lemma_take_mono(probs, idx as int);
                 lemma_take_mono(probs, idx as int + 1);
             }
-//@loop 3
+
+            let symbol = idx as u8;
+            if self.symbol_probabilities[idx] <= 0 {
+                { idx += 1; continue; }
+            }
+
+            //for each probability point the symbol gets on slot
+            let prob = self.symbol_probabilities[idx];
+            for _ in it: 0..prob 
                 invariant
                     valid_t(t), t == tsize(al as int), 5 <= al <= 9, table_size == t, self.decode@.len() == t, self.accuracy_log == al, self.max_symbol == msym,
                     self.symbol_probabilities@ == probs, n == probs.len(), n <= msym + 1, idx < n, symbol == idx, prob == probs[idx as int], prob > 0,
@@ -449,8 +479,8 @@ impl FSETable {
                     sum_pos(probs.take(idx as int)) + prob <= negative_idx,
                     position == w(j, t), position < negative_idx,
                     spread_state(self.decode@, written, probs, t, negative_idx as int, j, idx as int, it.index() as int),
-                    top_ok(self.decode@, probs, negative_idx as int, t, al, msym),
-//@ghost inloop=3
+                    top_ok(self.decode@, negative_idx as int, t, al, msym),
+{
                 let ghost k0 = it.index() as int;
                 let ghost d0 = self.decode@;
                 let ghost w0 = written;
@@ -466,7 +496,10 @@ impl FSETable {
                     assert(step_index(c0, t) == j);
                     assert(!w0[c0]);
                 }
-//@ghost before="position = next_position(position, table_size);" nth=1
+
+                let entry = &mut self.decode[position];
+                entry.symbol = symbol;
+
                 proof {
                     let e = self.decode@[c0];
                     assert(self.decode@ =~= d0.update(c0, e));
@@ -478,27 +511,20 @@ impl FSETable {
                     assert forall|c: int| 0 <= c < t implies (#[trigger] written[c] <==> (c < negative_idx && step_index(c, t) < j + 1)) by {
                         if c != c0 && c < negative_idx { assert(w(step_index(c, t), t) == c); }
                     }
-                    // the cell just written is the (number of cells written before)-th cell of the walk
-                    assert(visited_before(c0, t, negative_idx as int) =~= w0);
-                    assert(rank_of(c0, t, negative_idx as int) == sum_pos(probs.take(idx as int)) + k0);
-                    lemma_take_step(probs, idx as int);
-                    assert(k0 < prob);
-                    assert(e.symbol == idx);
-                    assert(spread_symbol_ok(probs, t, negative_idx as int, c0, e.symbol as int));
                     lemma_w_next(j, t);
                     j = j + 1;
                 }
-//@ghost after="position = next_position(position, table_size);" nth=1
+                position = next_position(position, table_size);
                 proof {
                     assert(spread_state(self.decode@, written, probs, t, negative_idx as int, j, idx as int, k0 + 1));
                 }
-//@loop 4
+                while position >= negative_idx 
                     invariant
                         valid_t(t), table_size == t, walk_facts(t), 0 < negative_idx <= t,
                         position == w(j, t), position < t,
                         spread_state(self.decode@, written, probs, t, negative_idx as int, j, idx as int, k0 + 1),
                     decreases t - j,
-//@ghost inloop=4
+{
                     proof {
                         assert(j < t);
                         assert forall|c: int| 0 <= c < t implies (#[trigger] written[c] <==> (c < negative_idx && step_index(c, t) < j + 1)) by {
@@ -507,22 +533,32 @@ impl FSETable {
                         lemma_w_next(j, t);
                         j = j + 1;
                     }
-//@ghost before="self.symbol_counter.clear();"
+
+                    position = next_position(position, table_size);
+                    //everything above negative_idx is already taken
+                }
+            }
+            idx += 1;
+        }
+
+        // baselines and num_bits can only be calculated when all symbols have been spread
         let ghost d2 = self.decode@;
         proof {
             // every cell below negative_idx has been written exactly once: as many writes as cells, all distinct
             assert(probs.take(n) =~= probs);
             lemma_numw_above(written, negative_idx as int, t);
             lemma_numw_full(written, negative_idx as int);
-            assert forall|c: int| 0 <= c < negative_idx implies (#[trigger] d2[c]).symbol < n && probs[d2[c].symbol as int] > 0
-                && spread_symbol_ok(probs, t, negative_idx as int, c, d2[c].symbol as int) by { assert(written[c]); }
+            assert forall|c: int| 0 <= c < negative_idx implies (#[trigger] d2[c]).symbol < n && probs[d2[c].symbol as int] > 0 by { assert(written[c]); }
             assert forall|s: int| 0 <= s < n implies #[trigger] cnt_sym(d2, s, negative_idx as int) == posp(probs[s]) by {
                 lemma_cntw_above(d2, written, s, negative_idx as int, t);
                 lemma_cntw_is_cnt_sym(d2, written, s, negative_idx as int);
                 assert(cntw(d2, written, s, t) == posp(probs[s]));
             }
         }
-//@loop 5
+        self.symbol_counter.clear();
+        self.symbol_counter
+            .resize(self.symbol_probabilities.len(), 0);
+        for idx in 0..negative_idx 
             invariant
                 valid_t(t), t == tsize(al as int), 5 <= al <= 9, table_size == t, self.decode@.len() == t, self.accuracy_log == al, self.max_symbol == msym,
                 self.symbol_probabilities@ == probs, n == probs.len(), n <= msym + 1, negative_idx <= t, d2.len() == t,
@@ -531,19 +567,31 @@ impl FSETable {
                 forall|c: int| 0 <= c < negative_idx ==> (#[trigger] d2[c]).symbol < n && probs[d2[c].symbol as int] > 0,
                 forall|s: int| 0 <= s < n ==> #[trigger] cnt_sym(d2, s, negative_idx as int) == posp(probs[s]),
                 forall|s: int| 0 <= s < n ==> #[trigger] self.symbol_counter@[s] == cnt_sym(d2, s, idx as int),
-                forall|c: int| 0 <= c < idx ==> (#[trigger] self.decode@[c]).num_bits <= al && self.decode@[c].base_line + vstd::arithmetic::power2::pow2(self.decode@[c].num_bits as nat) <= t
-                    && (self.decode@[c].base_line, self.decode@[c].num_bits) == rfc_state(t as u32, probs[d2[c].symbol as int] as u32, cnt_sym(d2, d2[c].symbol as int, c) as u32),
-                forall|c: int| 0 <= c < negative_idx ==> spread_symbol_ok(probs, t, negative_idx as int, c, (#[trigger] d2[c]).symbol as int),
-                negative_idx == t - num_neg(probs),
-                top_ok(self.decode@, probs, negative_idx as int, t, al, msym),
-//@ghost inloop=5
+                forall|c: int| 0 <= c < idx ==> (#[trigger] self.decode@[c]).num_bits <= al && self.decode@[c].base_line + vstd::arithmetic::power2::pow2(self.decode@[c].num_bits as nat) <= t,
+                top_ok(self.decode@, negative_idx as int, t, al, msym),
+{
             let ghost sy = self.decode@[idx as int].symbol as int;
             proof {
                 assert(sy == d2[idx as int].symbol);
                 lemma_cnt_sym_mono(d2, sy, idx as int + 1, negative_idx as int);
                 lemma_cnt_sym_bounds(d2, sy, negative_idx as int);
             }
-//@ghost afterloop=5
+
+            let entry = &mut self.decode[idx];
+            let symbol = entry.symbol;
+            let prob = self.symbol_probabilities[symbol as usize];
+
+            let symbol_count = self.symbol_counter[symbol as usize];
+            let (bl, nb) = calc_baseline_and_numbits(table_size as u32, prob as u32, symbol_count);
+
+            //println!("symbol: {:2}, table: {}, prob: {:3}, count: {:3}, bl: {:3}, nb: {:2}", symbol, table_size, prob, symbol_count, bl, nb);
+
+            let verif_assert_cond_1: bool = nb <= self.accuracy_log; assert(verif_assert_cond_1);
+            self.symbol_counter[symbol as usize] += 1;
+
+            entry.base_line = bl;
+            entry.num_bits = nb;
+        }
         proof {
             assert(self.decode@.len() == (1u64 << self.accuracy_log));
             assert forall|i: int| 0 <= i < self.decode@.len() implies ({
@@ -552,17 +600,15 @@ impl FSETable {
             }) by {
                 if i < negative_idx { assert(self.decode@[i].symbol == d2[i].symbol); }
             }
-            let d = self.decode@;
-            assert forall|c: int| 0 <= c < negative_idx implies spread_symbol_ok(probs, t, negative_idx as int, c, (#[trigger] d[c]).symbol as int)
-                && probs[d[c].symbol as int] > 0
-                && (d[c].base_line, d[c].num_bits) == rfc_state(t as u32, probs[d[c].symbol as int] as u32, cnt_sym(d, d[c].symbol as int, c) as u32) by {
-                assert(d[c].symbol == d2[c].symbol);
-                lemma_cnt_sym_same(d, d2, d[c].symbol as int, c);
-            }
-            assert(self.table_is_rfc());
         }
-//@end
+        Ok(())
+    }
 }
 
+pub proof fn verif_canary_must_fail(x: int)
+    requires x > 0,
+    ensures x > 1,
+{
+}
 } // verus!
 fn main() {}
